@@ -103,7 +103,7 @@ class Scenario:
     DEFAULTS = dict(
         htlcs=None, invoices=None, policy=None, cltv_delta=None, mpp_timeout_s=60, allow_self=True,
         store_init='free', max_parts=1, pay_outcomes=('complete', 'failed'), faults=0, fault_methods=(),
-        fault_codes=((-1, 'Rpc'),), write_faults=0, crash=0, crash_after_pays=0, crash_shrinks_expiry=False, pay_seq=None, stale_blocks=False, real_height_update=False, crash_reduced=True, crash_needs_live_part=False, timers=True, spurious=False, xpay=False,
+        fault_codes=((-1, 'Rpc'),), write_faults=0, crash=0, crash_after_pays=0, height_polls=0, probe_pairs=None, crash_shrinks_expiry=False, pay_seq=None, stale_blocks=False, real_height_update=False, crash_reduced=True, crash_needs_live_part=False, timers=True, spurious=False, xpay=False,
         height=None, blocks=0, wait_fail_codes=(204,), deliver_in_order=True, payee_releases=True,
         rng_free=True, max_total_parts=3, parts_can_fail=True, deliver_after_response=False, eager_tasks=False, strict_por=False,
     )
@@ -293,6 +293,8 @@ class Scenario:
                     out.append(('fire ' + t.label, self._fire(t.label)))
         if cfg['blocks'] and st.roots.get('blocks_done', 0) < cfg['blocks']:
             out.append(('block arrives', self._block))
+        if cfg['height_polls'] and st.roots.get('height_polls_done', 0) < cfg['height_polls']:
+            out.append(('height poll', self._height_poll))
         if cfg['crash'] and st.env.crashed < cfg['crash'] and st.roots['delivered'] and (st.roots.get('crash_ok') or not cfg['crash_reduced']) and \
                 len([c for c in st.env.calls if c.method == 'pay']) >= cfg['crash_after_pays'] and \
                 (not cfg['crash_needs_live_part'] or any(p.status == 'pending' for p in st.env.parts)):
@@ -349,6 +351,17 @@ class Scenario:
             hmx.cell.v = nh
             st.roots['height_applied'] = nh
         m.event('block', nh)
+
+    def _height_poll(self, m):
+        """The block watcher's periodic poll: the crate's own poll_height runs as a task (getinfo through the node model,
+        answered whenever the environment chooses -- or never, within the run)."""
+        st = m.st
+        st.roots['height_polls_done'] = st.roots.get('height_polls_done', 0) + 1
+        rpc = Adt('rpc::Rpc', None, {0: Seq([], 'str', tag='rpcfile')})
+        body = self.c.body('poll_height')
+        fut = m.call_body(body, [arc(st.roots['hmx']), arc(rpc)])
+        st.sched.new_task('hpoll%d' % st.roots['height_polls_done'], fut)
+        m.event('height_poll')
 
     def _crash(self, m):
         """Whole-node crash + restart: all plugin tasks and the payments table vanish; the node model
